@@ -85,6 +85,11 @@ EXTRA_SEEDS = [
     ('A', 'Neg, Add, SubAssign', 'struct X(dyn ::core::fmt::Debug + Sync);'),
     ('D', '', '#[derive_ex(Deref, Not, Mul, ShlAssign)] struct X<T> { a: dyn AsRef<T> + Send + \'static }'),
     ('A', 'Clone, Debug, PartialEq, Hash, PartialOrd', "struct X<'a>(u8, dyn ::core::fmt::Debug + 'a + Sync);"),
+    ('A', 'Add', 'impl Add<dyn A + Send> for X { type Output = X; fn add(self, r: X) -> X { self } }'),
+    ('A', 'Sub, SubAssign', "impl Sub<X> for dyn A + Send + 'static { type Output = X; fn sub(self, r: X) -> X { r } }"),
+    ('A', 'Mul', 'impl MulAssign<dyn A + > for X { fn mul_assign(&mut self, r: X) { } }'),
+    ('A', 'Add', 'impl Add<dyn A + > for X { type Output = X; fn add(self, r: X) -> X { self } }'),
+    ('A', 'BitOr, BitOrAssign', 'impl BitOr<impl A + B> for X { type Output = X; fn bitor(self, r: X) -> X { self } }'),
     ('A', 'Add', 'impl Add<> for X { type Output = X; fn add(self, r: X) -> X { self } }'),
     ('A', 'AddAssign', 'impl AddAssign<> for X { fn add_assign(&mut self, r: X) {} }'),
     ('A', 'Add', 'impl ::core::ops::Add<X,> for X { type Output = X; fn add(self, r: X) -> X { self } }'),
